@@ -276,11 +276,14 @@ fn entry_world(sel: u64, ts: Option<TimeoutSettings>, silent: bool, t: &mut Tape
             }
         }
         17 => {
-            // extra request settings on a Valve game: every toggle combination
+            // extra request settings on a Valve game: every toggle combination; one game in three is the one
+            // whose rules get a game-specific clean-up (Risk of Rain 2), which must cope with rules that were
+            // not gathered
+            let (game_id, app) = if t.draw(CFG, 3) == 0 { ("ror2", 632_360) } else { ("teamfortress2", 440) };
             if !silent {
-                w.add_server(addr, Proto::Udp, Box::new(ValveServer::new(ValveState::generate(t, false, false, Some(440), 3, 3))));
+                w.add_server(addr, Proto::Udp, Box::new(ValveServer::new(ValveState::generate(t, false, false, Some(app), 3, 3))));
             }
-            call(Entry::Generic { game_id: "teamfortress2", extra: crate::scenarios::gen_extra(t), level: 2 })
+            call(Entry::Generic { game_id, extra: crate::scenarios::gen_extra(t), level: 2 })
         }
         _ => {
             // the definition-driven dispatch
